@@ -277,6 +277,12 @@ instance {G fn rest mp ip stk mem out msg sp mem' out'} :
         exec1 G.code G.lim s1 = .intr (.throw msg sp)
           (mkSI G.s (frames' ++ ⟨fn, ip'⟩ :: rest) mp' (k + k' + 1) (xs ++ stk) mem' out')) := ⟨RunsT.run⟩
 
+/-- The origin of a pushed value: outside the extended fragment (`fr = false`) values never carry one;
+inside it a cell read (`l[i]`, `o.f`) may be passed on with the slot it came from. -/
+def OrgOK (fr : Bool) (o : Option Org) : Prop := fr = false → o = none
+
+theorem OrgOK.none (fr : Bool) : OrgOK fr none := fun _ => rfl
+
 /-- Expressions: a value ↦ only the output of the specification state changed, the VM runs to
 the end of the code with the value pushed, having produced the same output, and memory cells up
 to `mp` (the caller's and this activation's) are untouched; a fatal error other than the
@@ -286,7 +292,8 @@ def SimGE (G : GCtx) (A : Act) (ip n : Nat) (stk : List SVal) (mem : Mem) (st : 
   match r with
   | (.ok v, st') =>
     st' = { st with out := st'.out, heap := st'.heap } ∧
-      ∃ mem', Runs G.fr G.code G.lim G.s A.fn A.rest A.mp ip stk mem st.world (ip + n) (⟨v, none⟩ :: stk) mem' st'.world ∧
+      ∃ mem' o, OrgOK G.fr o ∧
+        Runs G.fr G.code G.lim G.s A.fn A.rest A.mp ip stk mem st.world (ip + n) (⟨v, o⟩ :: stk) mem' st'.world ∧
         MemLe G.fr A.mp mem mem'
   | (.error (.fatal kd m sp), st') =>
     kd ≠ "StackOverFlow" → RunsF G.code G.lim G.s A.fn A.rest A.mp ip stk mem st.world kd m sp st'.world
@@ -325,7 +332,8 @@ def SimGS {α : Type} (G : GCtx) (A : Act) (loops : List (String × String)) (ls
     | [] => False
   | (.error (.ret v), st') =>
     A.rt = true ∧ st' = { st with scopes := st'.scopes, out := st'.out, heap := st'.heap } ∧
-      ∃ mem', Runs G.fr G.code G.lim G.s A.fn A.rest A.mp ip stk mem st.world (A.lab A.cl) (⟨v, none⟩ :: stk) mem' st'.world ∧
+      ∃ mem' o, OrgOK G.fr o ∧
+        Runs G.fr G.code G.lim G.s A.fn A.rest A.mp ip stk mem st.world (A.lab A.cl) (⟨v, o⟩ :: stk) mem' st'.world ∧
         MemLe G.fr (A.mp - (A.nv : Int)) mem mem'
   | (.error (.fatal kd m sp), st') =>
     kd ≠ "StackOverFlow" → RunsF G.code G.lim G.s A.fn A.rest A.mp ip stk mem st.world kd m sp st'.world
@@ -373,18 +381,19 @@ instance {G g frames mp stk0 stk mem out msg sp mem' out'} :
         exec1 G.code G.lim s1 = .intr (.throw msg sp)
           (mkSI G.s (frames' ++ frames) mp' (k + k' + 1) (xs ++ stk) mem' out')) := ⟨RunsCallT.run⟩
 
-def SimCall (G : GCtx) (g : String) (frames : List Frame) (mp : Int) (args : List Val) (stk : List SVal)
+def SimCall (G : GCtx) (g : String) (frames : List Frame) (mp : Int) (args : List SVal) (stk : List SVal)
     (mem : Mem) (st : St) (r : Except Ctl Val × St) : Prop :=
   match r with
   | (.ok v, st') =>
     st' = { st with out := st'.out, heap := st'.heap } ∧
-      ∃ mem', RunsCall G g frames mp (args.map (⟨·, none⟩) ++ stk) mem st.world (⟨v, none⟩ :: stk) mem' st'.world ∧
+      ∃ mem' o, OrgOK G.fr o ∧
+        RunsCall G g frames mp (args ++ stk) mem st.world (⟨v, o⟩ :: stk) mem' st'.world ∧
         MemLe G.fr mp mem mem'
   | (.error (.fatal kd m sp), st') =>
-    kd ≠ "StackOverFlow" → RunsCallF G g frames mp (args.map (⟨·, none⟩) ++ stk) mem st.world kd m sp st'.world
+    kd ≠ "StackOverFlow" → RunsCallF G g frames mp (args ++ stk) mem st.world kd m sp st'.world
   | (.error (.throw msg sp), st') =>
     st' = { st with out := st'.out, heap := st'.heap } ∧
-      ∃ mem', RunsCallT G g frames mp (args.map (⟨·, none⟩) ++ stk) stk mem st.world msg sp mem' st'.world ∧
+      ∃ mem', RunsCallT G g frames mp (args ++ stk) stk mem st.world msg sp mem' st'.world ∧
         MemLe G.fr mp mem mem'
   | (.error (.unsupported _), _) => True
   | (.error .timeout, _) => True
